@@ -5,6 +5,6 @@ CONSTANTS
   MaxLen = 2
   MaxLearn = 3
   MaxRestart = 1
-INVARIANTS TypeOK TrailConsistent ReasonForces SatSound UnsatSound LearnEntailed ConflEntailed
+INVARIANTS TypeOK TrailConsistent ReasonForces SatSound UnsatSound LearnEntailed ConflEntailed DecisionsDetermineModel
 PROPERTY CertRUP
 CHECK_DEADLOCK FALSE
